@@ -105,6 +105,36 @@ def row_operation_width(ck, F, rule, fn, floor=3):
         ck.inst(rule, "%s:row-op#%d:%s" % (fn.rsplit("::", 1)[-1], n, kind), ok and lo_ok, e.site,
                 "%s over columns %r..%r ; required pivot column .. number of columns (whole remaining row)" % (
                     kind, inner[2] if inner else None, inner[3] if inner else None))
+    # Pivoting: the row where the non-zero element was found is exchanged with the pivot row whenever they differ - the exchange may be
+    # skipped for equal rows (a no-op) but must not be conditioned on anything else, in particular not on the rows being equal
+    from .symx import canon_cond
+    nsw = 0
+    swaps_seen = set()
+    for kind, e, idx in ops:
+        if kind != "swap":
+            continue
+        unp_ = lambda c: c[1] if isinstance(c, tuple) and len(c) == 2 and c[0] == "P" else c
+        i1, i2 = e.args[1], e.args[2]
+        if not (isinstance(i1, tuple) and i1[0] == "array" and isinstance(i2, tuple) and i2[0] == "array"):
+            continue
+        r1, r2 = unp_(i1[1][0]), unp_(i2[1][0])
+        key = (repr(r1), repr(r2))
+        if key in swaps_seen:
+            continue
+        swaps_seen.add(key)
+        nsw += 1
+        bad = []
+        for g, pol in e.guards:
+            if not isinstance(g, Poly):
+                continue
+            c_, p_ = canon_cond(g, pol)
+            ca_ = single_atom(c_)
+            if ca_ is not None and atom_fn(ca_) in ("eq", "op_eq") and set(map(repr, atom_args(ca_))) == {repr(r1), repr(r2)}:
+                if p_:
+                    bad.append("the exchange runs only when the two rows are the same row")
+            # (other path conditions - the search found a row, loop bounds - are not judged here)
+        ck.inst(rule, "%s:pivot-exchange#%d" % (fn.rsplit("::", 1)[-1], nsw), not bad, e.site,
+                "rows %r and %r are exchanged whenever they differ%s" % (r1, r2, (" ; but " + "; ".join(bad[:2])) if bad else ""))
     # Row *selection* of the eliminations: `row_t -= x * row_p` must be applied to exactly the rows on one side of the pivot row p:
     # t in p+1..nrows (rows below) or t in 0..p (rows above). A range anchored at anything else (e.g. the column counter) skips
     # rows that still hold a one in the pivot column or touches rows that are already reduced.
